@@ -2087,9 +2087,9 @@ def run(tier, seed, replay=None):
     ]
     rep.lean = lean_obligations(PROP, thorough=(tier == "thorough"))
     quick = tier == "quick"
-    n_circuits = dict(general=15, tp=12, pure=9) if quick else dict(general=280, tp=220, pure=130)
+    n_circuits = dict(general=15, tp=12, pure=9) if quick else dict(general=250, tp=200, pure=120)
     n_born = 3 if quick else 55
-    n_scalar_rounds = 1 if quick else 12
+    n_scalar_rounds = 1 if quick else 6
     n_variant_rounds = 1 if quick else 8
     n_late, n_weight, n_classical = (10, 6, 6) if quick else (140, 80, 80)
     n_batch = 8 if quick else 110
